@@ -260,7 +260,7 @@ func subHandler(p Pair, side int, base string, authz bool) (evalFn, error) {
 		fwdResp: []string{"X-Result"}, fwdH: []string{"X-Fwd-A"}, fwdC: []string{"ca"},
 	}
 
-	fwdA, xVar := "1", "1"
+	fwdA, xVar, cookieA := "1", "1", "3"
 
 	switch {
 	case is(p, side, "differ", "rendered_payload"):
@@ -268,8 +268,10 @@ func subHandler(p Pair, side int, base string, authz bool) (evalFn, error) {
 	case is(p, side, "differ", "expressions_error"):
 		// the answer has no "roles": the evaluation fails, there is no verdict
 		addRule(&sp, "expressions", []any{map[string]any{"expression": "Payload.roles.exists(r, r == 'admin')"}})
-	case is(p, side, "open", "fwd_header_value"):
+	case is(p, side, "differ", "fwd_header_value"):
 		fwdA = "9" // only the value of a forwarded request header differs
+	case is(p, side, "differ", "fwd_cookie_value"):
+		cookieA = "9" // only the value of a forwarded cookie differs
 	case is(p, side, "differ", "ep_url"):
 		sp.path = "/" + ep + "/e2"
 	case is(p, side, "differ", "ep_method"):
@@ -331,6 +333,11 @@ func subHandler(p Pair, side int, base string, authz bool) (evalFn, error) {
 			if side == 2 {
 				sp.fwdC, sp.payload = []string{"caB"}, `p`
 			}
+		case "fwd_header_value|fwd_cookie_value":
+			fwdA, cookieA = "1a", "b3"
+			if side == 2 {
+				fwdA, cookieA = "1", "ab3"
+			}
 		}
 	}
 
@@ -388,7 +395,7 @@ func subHandler(p Pair, side int, base string, authz bool) (evalFn, error) {
 	return func(cch cache.Cache) string {
 		ctx := c10.NewCtx(cch,
 			map[string]string{"X-Fwd-A": fwdA, "X-Fwd-Ab": "2", "X-Var": xVar},
-			map[string]string{"ca": "3", "bca": "4", "caB": "5"})
+			map[string]string{"ca": cookieA, "bca": "4", "caB": "5"})
 		sub := subjectOf(sp.subID, sp.role)
 
 		if err := exec(ctx, sub); err != nil {
@@ -413,8 +420,13 @@ func genericAuthn(p Pair, side int, base string) (evalFn, error) {
 	path, cred, payload := "/userinfo/e", "credA", `{"t":"{{ .AuthenticationData }}"}`
 	h := hdrs(p.NH)
 	session := false
+	fwdA, cookieA := "1", "3"
 
 	switch {
+	case is(p, side, "differ", "fwd_header_value"):
+		fwdA = "9"
+	case is(p, side, "differ", "fwd_cookie_value"):
+		cookieA = "9"
 	case is(p, side, "differ", "ep_url"):
 		path = "/userinfo/e2"
 	case is(p, side, "differ", "ep_headers"):
@@ -431,6 +443,13 @@ func genericAuthn(p Pair, side int, base string) (evalFn, error) {
 		h = []kv{{"X-Ab", "cd"}}
 		if side == 2 {
 			h = []kv{{"X-Abc", "d"}}
+		}
+	}
+
+	if p.Rel == "shift" && p.Comp == "fwd_header_value|fwd_cookie_value" {
+		fwdA, cookieA = "1a", "b3"
+		if side == 2 {
+			fwdA, cookieA = "1", "ab3"
 		}
 	}
 
@@ -451,6 +470,8 @@ func genericAuthn(p Pair, side int, base string) (evalFn, error) {
 		"subject":                    map[string]any{"id": "sub"},
 		"payload":                    payload,
 		"cache_ttl":                  "30s",
+		"forward_headers":            strs("X-Fwd-A"),
+		"forward_cookies":            strs("ca"),
 	}
 
 	if session {
@@ -470,7 +491,8 @@ func genericAuthn(p Pair, side int, base string) (evalFn, error) {
 	}
 
 	return func(cch cache.Cache) string {
-		sub, err := m.Execute(c10.NewCtx(cch, map[string]string{"Authorization": "Bearer " + cred}, nil))
+		sub, err := m.Execute(c10.NewCtx(cch, map[string]string{"Authorization": "Bearer " + cred, "X-Fwd-A": fwdA},
+			map[string]string{"ca": cookieA}))
 		if err != nil {
 			return classify(err)
 		}
